@@ -9,7 +9,8 @@ evaluation order, together with the list of the draw methods.  The model's `prim
 is proved here to be exactly these functions of exactly these draws, for every word: which method is drawn (a 32-bit or a 64-bit draw, how
 many), which bits are kept by the cast, the sign test for `bool`, low word first for the 128-bit types.
 `Alnum` (src/distr/alnum.rs): the table and one trip round its loop.
-(`char`, the `NonZero*` loops, tuples and arrays stay tied by the correspondence and the preimage counts.)
+`char`: the gap constant, the bounds of the uniform draw, the gap removal, and (checked by the translator) the two conversions.
+(The `NonZero*` loops, tuples and arrays stay tied by the correspondence and the preimage counts.)
 -/
 namespace Urandom.C13
 open Urandom Urandom.Standard Urandom.Generated
@@ -121,5 +122,26 @@ theorem alnum_translated (w : BitVec 64) (ws : Words) :
     rw [List.getElem?_eq_getElem hb]
     simp only [alnum_table_translated, List.getElem_map]
   · simp only [h, dite_false, if_false]
+
+/-- **the `char` sampler as translated**: `GAP_SIZE = 0xE000 - 0xD800`, the draw is `Uniform::new(GAP_SIZE, 0x11_0000)` (exclusive, on u32) -
+the model's `tryNew IntTy.u32 GAP_SIZE 0x110000 false` -, and for every value of that range the gap removal is the model's `charOf`
+(the subtraction cannot wrap there) -/
+theorem char_translated :
+    Scalar.standard.char_gap.toNat = GAP_SIZE ∧
+    Scalar.standard.char_bounds = (BitVec.ofNat 32 GAP_SIZE, BitVec.ofNat 32 0x110000) ∧
+    ∀ n : BitVec 32, GAP_SIZE ≤ n.toNat → (Scalar.standard.char_of n).toNat = charOf n.toNat := by
+  refine ⟨by decide, by decide, ?_⟩
+  intro n hn
+  have hg : Scalar.standard.char_gap = 2048#32 := by decide
+  have hG : GAP_SIZE = 2048 := by decide
+  unfold Scalar.standard.char_of charOf
+  rw [hg, hG] at *
+  by_cases h : n < 57344#32
+  · have h' : n.toNat < 0xE000 := by rw [BitVec.lt_def] at h; exact h
+    have hle : 2048#32 ≤ n := by rw [BitVec.le_def]; exact hn
+    simp only [h, if_true, h', BitVec.toNat_sub_of_le hle]
+    rfl
+  · have h' : ¬ n.toNat < 0xE000 := by rw [BitVec.lt_def] at h; exact h
+    simp only [h, if_false, h']
 
 end Urandom.C13
